@@ -201,3 +201,161 @@ def cross_check(items, wdir, k):
         except OSError:
             pass
     return res
+
+
+# ------------------------------------------------------------------------------------------------ stand-alone structures
+def _standalone_case(lines):
+    """(coq term, truncated history, digest function) for a table / cache / raw history, or None"""
+    hdr = lines[0].split()
+    body = [l for l in lines[1:] if l.strip() and not l.startswith("#")]
+    if hdr[0] == "table":
+        ops, keep = [], []
+        for l in body:
+            t = l.split()
+            if t[0] == "put":
+                ops.append("TbPut %s" % t[1])
+            elif t[0] == "sweepv":
+                ops.append("TbSweepV %s" % lst(t[2:2 + int(t[1])]))
+            elif t[0] == "dump":
+                continue
+            else:
+                break
+            keep.append(l)
+        term = "eval_table %s %s %s %s" % (hdr[1], hdr[2], hdr[3], lst(ops))
+
+        def dig(trace):
+            d = []
+            for l in trace:
+                t = l.split()
+                if t[0] == "i":
+                    d += [1] + [int(x) for x in t[1:5]]
+                elif t[0] == "s":
+                    d += [2] + [int(x) for x in t[1:4]]
+                elif t[0] == "panic":
+                    d += [98]
+                    return d
+                elif t[0] == "end":
+                    d += [0]
+            return d
+        return term, [lines[0]] + keep, dig
+    if hdr[0] == "cache":
+        ops, keep = [], []
+        for l in body:
+            t = l.split()
+            if t[0] == "ins":
+                if int(t[2]) < 0:
+                    break
+                ops.append("CIns %s %s" % (t[1], t[2]))
+            elif t[0] == "get":
+                ops.append("CGet %s" % t[1])
+            elif t[0] == "clear":
+                ops.append("CClear")
+            elif t[0] == "dump":
+                continue
+            else:
+                break
+            keep.append(l)
+        term = "eval_cache %s %s %s" % (hdr[1], hdr[2], lst(ops))
+
+        def dig(trace):
+            d = []
+            for l in trace:
+                t = l.split()
+                if t[0] == "i":
+                    d += [1]
+                elif t[0] == "g":
+                    d += [2, 0 if t[1] == "none" else int(t[1]) + 1, int(t[2]), int(t[3]), int(t[4])]
+                elif t[0] == "c":
+                    d += [3]
+                elif t[0] == "end":
+                    d += [0]
+            return d
+        return term, [lines[0]] + keep, dig
+    if hdr[0] == "raw":
+        ops, keep = [], []
+        for l in body:
+            t = l.split()
+            if t[0] == "ins":
+                ops.append("RIns N N %s %s" % (t[1], t[2]))
+            elif t[0] == "get":
+                ops.append("RGet N N %s" % t[1])
+            elif t[0] == "rem":
+                ops.append("RRem N N %s" % t[1])
+            elif t[0] == "clear":
+                ops.append("RClear N N")
+            else:
+                break
+            keep.append(l)
+        term = "eval_raw %s %s" % (hdr[1], lst(ops))
+
+        def dig(trace):
+            d = []
+            for l in trace:
+                if l.startswith("op "):
+                    continue
+                if l == "end":
+                    d += [0]
+                    continue
+                if l.startswith("panic"):
+                    d += [99]
+                    return d
+                obs, st = l.split(" | ")
+                o = obs.split()
+                s3 = [int(x) for x in st.split()[:3]]
+                if o[0] == "i":
+                    d += [1, int(o[1])] + s3
+                elif o[0] == "r":
+                    d += [2, 0 if o[1] == "none" else int(o[1]) + 1] + s3
+                elif o[0] == "g":
+                    d += [3, 0 if o[1] == "none" else int(o[1]) + 1] + s3
+                elif o[0] == "c":
+                    d += [4] + s3
+            return d
+        return term, [lines[0]] + keep, dig
+    return None
+
+
+def cross_check_standalone(items, wdir, k):
+    cands = []
+    for (name, lines, meta) in items:
+        if len(lines) > 400:
+            continue
+        c = _standalone_case(lines)
+        if c is None or len(c[1]) < 6:
+            continue
+        cands.append((name,) + c)
+        if len(cands) >= k:
+            break
+    if not cands:
+        return {"checked": 0}
+    vpath = os.path.join(wdir, "scases.v")
+    with open(vpath, "w") as f:
+        f.write("From Coq Require Import NArith List.\nRequire Import BddV.RawProto BddV.Standalone BddV.CoqEvalStandalone.\nImport ListNotations.\nLocal Open Scope N_scope.\n")
+        for i, (name, term, hist, dig) in enumerate(cands):
+            f.write("Eval vm_compute in (777%d, %s).\n" % (i, term))
+    rc, out = H.sh(["timeout", "600", "coqc", "-noglob", "-R", H.COQ, "BddV", "-o", os.path.join(wdir, "scases.vo"), vpath], cwd=wdir, timeout=700)
+    if rc != 0:
+        return {"checked": 0, "error": out[-400:]}
+    flat = out.replace("\n", " ")
+    res = {"checked": 0, "agree": 0}
+    for i, (name, term, hist, dig) in enumerate(cands):
+        m = re.search(r"=\s*\(777%d,\s*\[(.*?)\]\)" % i, flat)
+        if not m:
+            continue
+        coq = [int(x) for x in re.findall(r"\d+", m.group(1))]
+        hp = H.write_hist(os.path.join(wdir, "scc-%d.hist" % i), hist)
+        model = H.run_model(hp)
+        d = dig(model["lines"])
+        res["checked"] += 1
+        if coq == d:
+            res["agree"] += 1
+            os.remove(hp)
+        else:
+            res["mismatch"] = hp
+            res["detail"] = "coq=%s ocaml=%s" % (coq[:60], d[:60])
+    for ext in ("scases.vo", "scases.glob", ".scases.aux"):
+        try:
+            os.remove(os.path.join(wdir, ext))
+        except OSError:
+            pass
+    return res
